@@ -675,6 +675,9 @@ def run(ctx):
     shutil.copy(PROPS / "Prop_C20.v", rd / "Prop_C20.v")
     ctx.prove(rd / "Prop_C20.v", "Prop_C20.v (theorems about EvecSortModel / Disp2EigModel / MatdynModel)",
               "theorem-file", extra_Q=[(rd, "CijGen")])
+    # static tie: evec_sort.py / evec_disp2eig.py / evec_load.py are translated again on every run and proved equal to the models
+    from props import evec_static
+    evec_static.static_tie(ctx, rd)
 
     shard_files = []
     shard_meta = {}
